@@ -4,7 +4,7 @@ from .common import Inconclusive, log
 
 CHECKS = {
     'C01': 'relsmt.c01', 'C02': 'checks.c02', 'C06': 'kani.c06', 'C11': 'mirsmt.c11', 'C12': 'relsmt.c12',
-    'C13': 'relsmt.c13', 'C14': 'mirsmt.c14', 'C19': 'kani.c19', 'C20': 'mirsmt.c20',
+    'C13': 'relsmt.c13', 'C14': 'mirsmt.c14', 'C16': 'mirsmt.c16', 'C19': 'kani.c19', 'C20': 'mirsmt.c20',
 }
 
 
